@@ -266,6 +266,12 @@ func (m *stateMachine) index(i int) *stateEntry {
 	return &m.Stack[i]
 }
 
+// AtMaxDepth reports whether starting another JSON object or array
+// would exceed the maximum nesting depth.
+func (m stateMachine) AtMaxDepth() bool {
+	return len(m.Stack) == maxNestingDepth
+}
+
 // DepthLength reports the current nested depth and
 // the length of the last JSON object or array.
 func (m stateMachine) DepthLength() (int, int64) {
